@@ -19,7 +19,7 @@ import math
 import random
 import signal
 import itertools
-from .common import Result, pmap, jsonable, seed_all, make_solver, Recorder, np
+from .common import Result, pmap, jsonable, seed_all, make_solver, Recorder, np, hang_seen, hang_budget_spent
 
 INF = float('inf')
 TOLS = [0, 1e-4, 0.125, 0.25, 0.5]
@@ -370,6 +370,9 @@ def _alarm(*a):
     raise Timeout()
 
 
+LOG_CAP = 200          # Collapse() calls recorded per run (real runs apply at most a handful of collapses)
+
+
 def run_solve(sc):
     """returns (error or None, log, calls, final, termination state)"""
     import mystic.termination as mt
@@ -404,18 +407,23 @@ def run_solve(sc):
     orig = s.Collapse
 
     def hook(disp=False):
+        if len(log) >= LOG_CAP:          # a run that collapses for ever is cut by the guard; its log stays analysable
+            return orig(disp)
         before = (rec.n, [float(v) for v in s.bestSolution], mt.state(s._termination))
         r = orig(disp)
         log.append(before + (r, mt.state(s._termination)))
         return r
     s.Collapse = hook                    # instance attribute: _Solve's self.Collapse(...) goes through the hook
     err = None
+    if hang_budget_spent():
+        return 'SKIPPED', [], [], [], {}
     old = signal.signal(signal.SIGVTALRM, _alarm)       # CPU seconds of this process, not wall clock (load-independent)
     signal.setitimer(signal.ITIMER_VIRTUAL, sc.get('guard', 30))
     try:
         s.Solve(rec, term)
     except Timeout:
         err = 'no return within %d CPU-seconds' % sc.get('guard', 30)
+        hang_seen()
     except Exception as e:
         err = 'raised %r' % (e,)
     finally:
@@ -465,6 +473,9 @@ def event_shape(pairs):
 def check_solve(res, sc):
     key = 'C11/bounded/solve/'
     err, log, calls, final, endstate = run_solve(sc)
+    if err == 'SKIPPED':                 # only after repeated hangs, every one of them reported
+        res.extra['skipped_after_repeated_hangs'] = res.extra.get('skipped_after_repeated_hangs', 0) + 1
+        return
     applied = [e for e in log if e[3]]
     lt = '#list-target' if isinstance(sc['term'][1], str) else ''
     fixed, tied, seen = [], [], {'CollapseAt': set(), 'CollapseAs': set(), 'CollapsePosition': set()}
